@@ -549,25 +549,32 @@ func (s *SetOperation) Format(opts FormatOptions) string {
 	operandOpts := opts
 	operandOpts.AddSemicolon = false
 
-	if s.Left != nil {
-		if ls, ok := s.Left.(Formatter); ok {
-			sb.WriteString(ls.Format(operandOpts))
-		} else {
-			sb.WriteString(stmtSQL(s.Left))
+	// A UNION b UNION c ... nests once per operator on the left: walk that spine in a
+	// loop and write into one builder, so that the text of the left side is not copied
+	// again at every level (which made long chains cost quadratic time and memory).
+	var chain []*SetOperation
+	cur := s
+	for {
+		chain = append(chain, cur)
+		next, ok := cur.Left.(*SetOperation)
+		if !ok || next == nil {
+			break
 		}
+		cur = next
 	}
-	sb.WriteString(f.clauseSep())
-	op := s.Operator
-	if s.All {
-		op += " ALL"
+	if cur.Left != nil {
+		sb.WriteString(formatStmt(cur.Left, operandOpts))
 	}
-	sb.WriteString(f.kw(op))
-	sb.WriteString(f.clauseSep())
-	if s.Right != nil {
-		if rs, ok := s.Right.(Formatter); ok {
-			sb.WriteString(rs.Format(operandOpts))
-		} else {
-			sb.WriteString(stmtSQL(s.Right))
+	for i := len(chain) - 1; i >= 0; i-- {
+		sb.WriteString(f.clauseSep())
+		op := chain[i].Operator
+		if chain[i].All {
+			op += " ALL"
+		}
+		sb.WriteString(f.kw(op))
+		sb.WriteString(f.clauseSep())
+		if chain[i].Right != nil {
+			sb.WriteString(formatStmt(chain[i].Right, operandOpts))
 		}
 	}
 
